@@ -31,8 +31,8 @@ var reserved = map[string]bool{"id": true, "type": true, "meta": true, "relation
 
 // (JSON:API member names may also hold any character from U+0080 up: a
 // letter and a symbol stand for those, drawn less often than the ASCII ones.)
-var nameInner = []rune("abcrA1-_abcrA1-_abcrA1-_é€")
-var nameEdge = []rune("abcrA1abcrA1abcrA1é€")
+var nameInner = []rune("abcrA1-_abcrA1-_abcrA10-_é€")
+var nameEdge = []rune("abcrA1abcrA1abcrA10é€")
 
 // Name draws a JSON:API member name: [a-z0-9] at both ends, '-' and '_' allowed
 // inside, length 1..5, over a deliberately tiny alphabet so that duplicates,
@@ -73,7 +73,7 @@ func NamePool(t *rapid.T, n int, label string) []string {
 
 		mode := 0
 		if len(pool) > 0 {
-			mode = rapid.IntRange(0, 6).Draw(t, label+"-mode")
+			mode = rapid.IntRange(0, 7).Draw(t, label+"-mode")
 		}
 
 		switch mode {
@@ -97,6 +97,11 @@ func NamePool(t *rapid.T, n int, label string) []string {
 		case 6: // an earlier name with something in front: r -> ar, r -> b1r
 			base := rapid.SampledFrom(pool).Draw(t, label+"-base")
 			s = rapid.SampledFrom([]string{"a", "r", "b1", "c-", "1_"}).Draw(t, label+"-front") + base
+		case 7: // an earlier name with a zero in front of a digit: a1 -> a01
+			base := rapid.SampledFrom(pool).Draw(t, label+"-base")
+			if i := strings.IndexAny(base, "0123456789"); i >= 0 {
+				s = base[:i] + "0" + base[i:]
+			}
 		case 2: // prefix of an earlier name
 			base := rapid.SampledFrom(pool).Draw(t, label+"-base")
 			if rs := []rune(base); len(rs) > 1 {
@@ -136,6 +141,14 @@ var HostileRunes = []rune{
 // HostileString draws a valid UTF-8 string of 0..12 runes (tail to 40) mixing
 // plain and hostile characters.
 func HostileString(t *rapid.T, label string) string {
+	// Texts that look like escape sequences of some layer (JSON, URL, HTML)
+	// but are plain characters here.
+	if rapid.IntRange(0, 14).Draw(t, label+"-lookalike") == 0 {
+		return rapid.SampledFrom([]string{
+			`\u003c`, `a\u0026b`, `C:\u003edir`, `\n`, `\"`, `%41`, `%zz`, `&amp;`, `\/`, `\\`, `\u00e9`, `+`, `%2B`, `&#39;`,
+		}).Draw(t, label+"-lookalike-text")
+	}
+
 	max := 12
 	if rapid.IntRange(0, 19).Draw(t, label+"-long") == 0 {
 		max = 40
